@@ -111,15 +111,15 @@ func desugarSwitches(p *Prog) int {
 			if !ok || b.Info()&types.IsInteger == 0 {
 				return nil
 			}
-			// and only when a case is computed (slot+1): a switch over constants or plain variables stays the table it is
+			// and only when a case is not a constant: a switch over constants stays the table it is
 			computed := false
 			for _, c := range sw.Body.List {
 				if cc, ok := c.(*ast.CaseClause); ok {
 					for _, e := range cc.List {
 						if tv, ok := curInfo.Types[e]; !ok || tv.Value == nil {
-							if _, arith := ast.Unparen(e).(*ast.BinaryExpr); arith {
-								computed = true
-							}
+							// (slot+1, or another variable / field the tag is compared with: lookupIndex,
+							// node.BestDescendant — a comparison of two run-time values, not a row of a table of constants)
+							computed = true
 						}
 					}
 				}
@@ -702,6 +702,49 @@ func desugarClamps(p *Prog) int {
 				case *ast.CommClause:
 					x.Body = rewriteList(x.Body)
 				}
+				return true
+			})
+		}
+	}
+	return n
+}
+
+// desugarLoopHeads: `for { if C { break }; S… }` is `for !C { S… }` — the exit test written as the first statement of an
+// endless loop is the loop's condition (a `continue` in S comes round to the same test either way). Only the plain form:
+// no init / post, the `if` without init and else, its body the lone unlabelled break, the loop not labelled. Rules that
+// read loop conditions (bisect.step, the comparisons' refusal sides, counting loops) then see one spelling.
+func desugarLoopHeads(p *Prog) int {
+	n := 0
+	for _, pk := range p.Pkgs {
+		info := pk.TypesInfo
+		for _, f := range pk.Syntax {
+			ast.Inspect(f, func(k ast.Node) bool {
+				fs, ok := k.(*ast.ForStmt)
+				if !ok || fs.Init != nil || fs.Cond != nil || fs.Post != nil || fs.Body == nil || len(fs.Body.List) < 2 {
+					return true
+				}
+				is, ok := fs.Body.List[0].(*ast.IfStmt)
+				if !ok || is.Init != nil || is.Else != nil || len(is.Body.List) != 1 {
+					return true
+				}
+				br, ok := is.Body.List[0].(*ast.BranchStmt)
+				if !ok || br.Tok != token.BREAK || br.Label != nil {
+					return true
+				}
+				var cond ast.Expr
+				if u, ok := ast.Unparen(is.Cond).(*ast.UnaryExpr); ok && u.Op == token.NOT {
+					cond = ast.Unparen(u.X) // if !(C) { break }: the condition is C
+				} else {
+					not := &ast.UnaryExpr{OpPos: is.Cond.Pos(), Op: token.NOT, X: &ast.ParenExpr{Lparen: is.Cond.Pos(), X: is.Cond, Rparen: is.Cond.End()}}
+					if tv, ok := info.Types[is.Cond]; ok {
+						info.Types[not] = tv
+						info.Types[not.X] = tv
+					}
+					cond = not
+				}
+				fs.Cond = cond
+				fs.Body.List = fs.Body.List[1:]
+				n++
 				return true
 			})
 		}
